@@ -11,17 +11,11 @@
 (* result; "MAY" = not promised by the docstrings: raising is fine, a        *)
 (* returned value must be the specification's.                               *)
 (***************************************************************************)
-EXTENDS TensorAlg, Json
+EXTENDS CaseCommon
 
 CONSTANTS
-  Family,      \* which operation family this run enumerates
   Sizes,       \* dimension sizes offered, e.g. {1, 2} or {1, 2, 3}
-  MaxRank,     \* maximal operand rank for the generic families
-  MaxBasis,    \* outputs with at most this many elements get every basis gradient
-  WithGrad     \* FALSE: forward only
-
-VARIABLES case, phase
-vars == <<case, phase>>
+  MaxRank      \* maximal operand rank for the generic families
 
 \* ---------------------------------------------------------------------------
 \* shapes
@@ -31,25 +25,11 @@ ShapesFrom(lo, hi, sz) == UNION {[1..q -> sz] : q \in lo..hi}
 Dims(n) == (0 - n - 1)..n                       \* every dim in range plus one on each side
 PairsDistinct(n) == {<<a, b>> \in ((0 - n)..(n - 1)) \X ((0 - n)..(n - 1)) : ND(a, n) # ND(b, n)}
 
-\* value patterns (k = operand number, i = flat position); all exact rationals
-PatA(k, i) == LET m == i + 2 * k IN IF i % 2 = 0 THEN QI(0 - m) ELSE QI(m)           \* mixed sign, distinct, never 0
-PatB(k, i) == LET v == ((7 * i + 3 * k) % 11) - 5 IN QI(IF v = 0 THEN 6 ELSE v)      \* mixed sign, repeats
-PatS(k, i) == <<((3 * i + k) % 9) - 4, 2>>                                          \* small halves in [-2, 2]
-PatP(k, i) == QN(((3 * i + k) % 7) + 1, 2)                                          \* positive halves in [1/2, 7/2]
-PatT(k, i) == QI((i + k) % 2)                                                       \* ties
-PatVal(pat, k, i) ==
-  CASE pat = "A" -> PatA(k, i) [] pat = "B" -> PatB(k, i) [] pat = "S" -> PatS(k, i)
-    [] pat = "P" -> PatP(k, i) [] pat = "T" -> PatT(k, i)
-Fill(pat, shapes) == [k \in 1..Len(shapes) |-> [i \in 1..Prod(shapes[k]) |-> PatVal(pat, k, i)]]
-
 Opt(S) == {<<>>} \cup {<<v>> : v \in S}
 Scalars == {QI(2), QI(0 - 3), <<1, 2>>}
 
 \* ---------------------------------------------------------------------------
 \* case sets per family.  A case: [op, shapes, a (argument record), pat]
-C(op, shapes, a, pat) == [op |-> op, shapes |-> shapes, a |-> a, pat |-> pat]
-NoArg == [x |-> 0]
-
 BinCases == {C(op, <<s1, s2>>, NoArg, "A") : op \in {"add", "sub", "mul", "div"}, s1 \in Shapes, s2 \in Shapes}
 
 ScalarCases ==
@@ -189,51 +169,13 @@ Relevant(c) ==
   /\ (c.op = "unbind" => (Len(c.shapes[1]) = 0 \/ ~InRange(c.a.dim, Len(c.shapes[1])) \/ c.a.t <= c.shapes[1][ND(c.a.dim, Len(c.shapes[1])) + 1]))
 
 \* ---------------------------------------------------------------------------
-\* upstream gradients (integers)
-Basis(n, j)  == [i \in 1..n |-> IF i = j THEN Q1 ELSE Q0]
-GenericG(n)  == [i \in 1..n |-> QI(IF i % 2 = 0 THEN 0 - (i + 1) ELSE i + 1)]
-GSel(n) ==
-  LET js == IF n <= MaxBasis THEN 1..n ELSE {1, n, (n + 1) \div 2, (n \div 3) + 1}
-  IN {Basis(n, j) : j \in js} \cup {[i \in 1..n |-> IF i = 1 THEN QI(0 - 1) ELSE Q0], GenericG(n), [i \in 1..n |-> Q1]}
-
-\* non-empty subsets of operands that require grad, as sequences of booleans
-RgSets(K) == {r \in [1..K -> BOOLEAN] : \E k \in 1..K : r[k]}
-
-\* extremum over a group
-ExtVal(X, grp, isMax) ==
-  LET vals == [t \in 1..Len(grp) |-> X[grp[t]]]
-      best == CHOOSE t \in 1..Len(vals) : \A u \in 1..Len(vals) : IF isMax THEN ~QLess(vals[t], vals[u]) ELSE ~QLess(vals[u], vals[t])
-  IN vals[best]
-Ties(X, grp, isMax) == LET v == ExtVal(X, grp, isMax) IN SelectSeq(grp, LAMBDA i : X[i] = v)
-
-Obs(c) ==
-  LET f == FormOf(c)
-      X == Fill(c.pat, c.shapes)
-      base == [op |-> c.op, a |-> c.a, shapes |-> c.shapes, pat |-> c.pat, X |-> X, pol |-> Policy(c, f),
-               rgsets |-> RgSets(Len(c.shapes))]
-  IN IF ~f.ok THEN base @@ [kind |-> "none"]
-     ELSE IF f.kind = "poly" THEN
-       LET out == [j \in 1..Len(f.el) |-> EvalPoly(f.el[j], X)]
-           JT == JacT(f.el, X)
-           G == IF WithGrad /\ phase = "diffed" THEN GSel(Len(out)) ELSE {}
-       IN base @@ [kind |-> "poly", oshape |-> f.shape, out |-> out,
-                   gs |-> {[g |-> g, grads |-> VJP(JT, g)] : g \in G}]
-     ELSE IF f.kind = "ext" THEN
-       LET out == [j \in 1..Len(f.grp) |-> ExtVal(X[1], f.grp[j], f.mx)]
-           ties == [j \in 1..Len(f.grp) |-> Ties(X[1], f.grp[j], f.mx)]
-           G == IF WithGrad /\ phase = "diffed" THEN GSel(Len(out)) ELSE {}
-       IN base @@ [kind |-> "ext", oshape |-> f.shape, out |-> out, ties |-> ties, gs |-> {[g |-> g] : g \in G}]
-     ELSE
-       LET G == IF WithGrad /\ phase = "diffed" THEN GSel(Prod(f.shape)) ELSE {}
-       IN base @@ [kind |-> "rterm", oshape |-> f.shape, fn |-> f.fn, par |-> f.par, gs |-> {[g |-> g] : g \in G}]
+Obs(c) == LET f == FormOf(c) IN ObsOf(c, f, Policy(c, f), Fill(c.pat, c.shapes), [x |-> 0])
 
 \* ---------------------------------------------------------------------------
 Init == case \in {c \in Cases : Relevant(c)} /\ phase = "applied"
 Differentiate == WithGrad /\ phase = "applied" /\ FormOf(case).ok /\ phase' = "diffed" /\ UNCHANGED case
 Next == Differentiate
 
-\* frame condition (C11): operands of a case never change; pure function of the case
-OperandsFrozen == [][case' = case]_vars
 
 \* design-level sanity of the derivation: the VJP with the all-ones gradient of a poly form equals the
 \* derivative of the sum of outputs, and basis gradients reproduce the rows of the Jacobian
